@@ -120,6 +120,8 @@ def main(args):
             "preprocessor_runs": total.get("preproc", 0),
             "aborted_invocations": total.get("fired", 0),
         },
+        "distinct_interleavings": len(total.get("interleavings", ())),
+        "interleaving_measure": "distinct digests of (materialisation, [(step kind, filter class, fault?, outcome class)])",
         "known_findings_observed": known_counts,
         "components": COMPONENTS,
         "exhaustive": False,
